@@ -1,5 +1,6 @@
 import CantoVerif.Spec.Coinswap
 import CantoVerif.Proofs.CoinswapWF
+import CantoVerif.Spec.CoinswapExamples
 /-!
 # C02 — coinswap operations conserve value; rejected operations change nothing.
 
@@ -264,6 +265,14 @@ theorem add_conserves {env : Env} {s s' : State} {m : MsgAdd} {r : Resp} (h : ad
     refine ⟨sender, pool, mint, 0, 0, hsender, hresp, Nat.le_refl _,
       Or.inr ⟨hSome, rfl, rfl, hpools, hseq⟩, ?_⟩
     exact core false 0 0 pool _ _ _ (Nat.le_refl _) (fun _ => ⟨rfl, rfl⟩) (by simpa using hbank)
+
+
+/-! ## non-vacuity: each kind of message succeeds on a concrete non-trivial state -/
+
+example : (step exEnv exState exSell).toBool = true := by decide +kernel
+example : (step exEnv exState exBuy).toBool = true := by decide +kernel
+example : (step exEnv exState exAdd).toBool = true := by decide +kernel
+example : (step exEnv exState exRemove).toBool = true := by decide +kernel
 
 end Coinswap
 end CV
